@@ -140,8 +140,8 @@ FINISH = dict(level="proof",
                    "+ in-place reconfigurations (setfactor / setparams / adaptall) with observations after each; non-trivial = composed kernel "
                    "(depth >= 1) or a Gram op with >= 2 batches; distinct = distinct op text")
 
-LAKE_TARGETS = ["SharkVerif.Props.C05", "SharkVerif.Props.C05b", "SharkVerif.Props.C05c", "SharkVerif.Props.C05d", "drv_c05"]
-PROPS = ["SharkVerif.Props.C05", "SharkVerif.Props.C05b", "SharkVerif.Props.C05c", "SharkVerif.Props.C05d"]
+LAKE_TARGETS = ["SharkVerif.Props.C05", "SharkVerif.Props.C05b", "SharkVerif.Props.C05c", "SharkVerif.Props.C05d", "SharkVerif.Props.C05e", "drv_c05"]
+PROPS = ["SharkVerif.Props.C05", "SharkVerif.Props.C05b", "SharkVerif.Props.C05c", "SharkVerif.Props.C05d", "SharkVerif.Props.C05e"]
 
 
 # ----------------------------------------------------------------------------- values
